@@ -231,8 +231,22 @@ def gen_cases(seed, tier):
     return cases
 
 
-def case_line(c):
-    return "comp\t%d\t%s" % (c["nregs"], ";".join(c["ops"]))
+TRAIT_OPS = {"set", "inc", "get", "fmass", "muli", "itm"}
+
+
+def via_trait(op, idx):
+    """a third of the applicable operations are dispatched through the public trait `ChemicalCompositionLike`
+    on the real code (`op@t`); deterministic in (op text, position), so a recorded history replays exactly.
+    The model has one function per operation: the trait methods are forwarders."""
+    import zlib
+    return op.split(" ", 1)[0] in TRAIT_OPS and zlib.crc32(f"{op}#{idx}".encode()) % 3 == 0
+
+
+def case_line(c, impl=False):
+    ops = c["ops"]
+    if impl:
+        ops = [(o.replace(" ", "@t ", 1) if via_trait(o, i) else o) for i, o in enumerate(ops)]
+    return "comp\t%d\t%s" % (c["nregs"], ";".join(ops))
 
 
 # ---- comparison --------------------------------------------------------------------------------
@@ -344,7 +358,7 @@ def classify(c):
 def run_all(r: Run, prop):
     cases = gen_cases(r.seed, r.tier)
     lines = [case_line(c) for c in cases]
-    impl = r.impl("comp", lines)
+    impl = r.impl("comp", [case_line(c, impl=True) for c in cases])
     model = r.model("comp", lines)
     found = {}     # (property, clause) -> first (case, idx, detail)
     others = 0
@@ -379,7 +393,7 @@ def run_all(r: Run, prop):
         ops = shrink(r, c, p, clause)
         if ops != c["ops"]:
             cc2 = dict(c, ops=ops)
-            il = r.impl("comp", [case_line(cc2)])[0]
+            il = r.impl("comp", [case_line(cc2, impl=True)])[0]
             ml = r.model("comp", [case_line(cc2)])[0]
             for iss in compare_case(cc2, il, ml):
                 if iss[0] == p and iss[1] == clause:
@@ -398,9 +412,8 @@ def run_all(r: Run, prop):
 def shrink(r, c, prop, clause):
     def fails(ops):
         cc = dict(c, ops=ops)
-        line = case_line(cc)
-        il = r.impl("comp", [line])[0]
-        ml = r.model("comp", [line])[0]
+        il = r.impl("comp", [case_line(cc, impl=True)])[0]
+        ml = r.model("comp", [case_line(cc)])[0]
         return any(i[0] == prop and i[1] == clause for i in compare_case(cc, il, ml))
     if c["kind"] == "lockstep" and clause.startswith("lockstep"):
         return c["ops"]
